@@ -27,9 +27,15 @@ def walkLayer (n : Nat) (edge : Nat → Nat → Bool) (src : Nat → Bool) : Nat
     let prev := walkLayer n edge src d
     tab n fun v => (List.range n).any fun u => prev.getD u false && edge u v
 
-/-- executable hop distance: least `d < n` with `v` in layer `d`, else `-1` -/
+/-- least `d` in `[s, s+c)` with `f d`, scanning upwards -/
+def findFirst (f : Nat → Bool) : Nat → Nat → Option Nat
+  | _, 0 => none
+  | s, c+1 => if f s then some s else findFirst f (s+1) c
+
+/-- executable hop distance: least `d < n` with `v` in layer `d`, else `-1`
+    (a hop distance is always `< n`: `Properties.C10.isDist_lt`) -/
 def hopDist (n : Nat) (edge : Nat → Nat → Bool) (src : Nat → Bool) (v : Nat) : Int :=
-  match (List.range n).find? (fun d => (walkLayer n edge src d).getD v false) with
+  match findFirst (fun d => (walkLayer n edge src d).getD v false) 0 n with
   | some d => d
   | none => -1
 
